@@ -9,7 +9,7 @@ RULE = ('Hypothesis-generated timetables of 1-6 entries (durations on the dyadic
         'repeated states), cyclical / non-cyclical / default; objects registered before the run (default action or '
         'per-object override, duplicates incl. with a different override) and register/unregister/re-register '
         'calls issued from events at generated times with distinct generated priorities (below and above the '
-        'scheduler\'s own transition priority); horizons up to 50 periods; split runs; all tie-break policies. '
+        'scheduler\'s own transition priority); the scheduler optionally created inside an event at t0 > 0 (its timetable then starts at t0); every action also reads current_state and must see the new state; horizons up to 50 periods; split runs; all tie-break policies. '
         'Oracle: independent timetable evaluator (prefix sums, modulo the period, last state forever): '
         'current_state sampled every 1/4 time unit by lowest-priority observers and the schedule_update records '
         'equal the prescribed (time, state) sequence; the invocation log equals, at start-up and at each state '
@@ -25,7 +25,7 @@ OBJS = ['o1', 'o2', 'o3']
 
 
 def cases(max_timed, horizons):
-    def build(tt, cyc, pre, timed, T, split, pol, seed):
+    def build(tt, cyc, pre, timed, T, split, pol, seed, late):
         tt = [list(x) for x in tt]
         if sum(d for d, _ in tt) == 0:
             tt[0][0] = 1
@@ -37,8 +37,11 @@ def cases(max_timed, horizons):
             used[(t, p)] = 1
             out.append([t, p, k, o, ov])
         Ts = [T] if not split else [T / 4, 3 * T / 4]
+        if late:
+            # registration calls only make sense once the scheduler exists
+            out = [x for x in out if x[0] > late or (x[0] == late and x[1] < 13)]
         return {'timetable': tt, 'cyclical': cyc, 'pre': [list(x) for x in pre], 'timed': out, 'T': Ts,
-                'tb': [pol, seed]}
+                'tb': [pol, seed], 'late': late}
     entry = st.tuples(st.sampled_from(G), st.sampled_from(['a', 'b', 'c']))
     pre = st.lists(st.tuples(st.sampled_from(OBJS), st.booleans()), max_size=4)
     timed = st.lists(st.tuples(st.sampled_from([0, 0.5, 1, 1.75, 2, 3, 4.5, 7, 10]),
@@ -47,7 +50,7 @@ def cases(max_timed, horizons):
                      max_size=max_timed)
     return st.builds(build, st.lists(entry, min_size=1, max_size=6), st.sampled_from([True, False, None]), pre, timed,
                      st.sampled_from(horizons), st.booleans(), st.sampled_from(['random', 'fifo', 'lifo', 'const']),
-                     st.integers(0, 10 ** 6))
+                     st.integers(0, 10 ** 6), st.sampled_from([None, None, None, 0.5, 1.75, 2.5]))
 
 
 def valid(case):
@@ -74,6 +77,8 @@ def run_case(case, ctx):
         classes.append('zero-duration-state')
     if len(case['T']) > 1:
         classes.append('split-run')
+    if case.get('late'):
+        classes.append('scheduler-created-while-running')
     sts = [s for _, s in case['timetable']]
     if any(a == b for a, b in zip(sts, sts[1:] + sts[:1])):
         classes.append('same-state-twice-in-a-row')
